@@ -11,6 +11,9 @@ Decided:
   C13.count  I/O adaptors forward the inner result and account only the transferred bytes
   C13.panic  engine B over the writer and metadata-writer entry points: no unaudited panic site (no unwrap/expect
              on a failing underlying stream)
+  C13.enc    guards behind the encoder's audited panic sites (C15.guard): Encoder::encode refuses a frame whose sample count
+             does not fit the 16-bit block size (what finalize / Drop can hand over after a failed write), frames are
+             filled only from non-empty blocks
   C13.read   FlacStreamReader::read reports an I/O error met while parsing a frame header instead of skipping the frame
   (C13.count also requires every Write::flush of the crate's adaptors to forward to the wrapped stream and return its result)
 Not decided: completeness / validity of the bytes delivered (see C02, C11).
@@ -64,6 +67,36 @@ def stream_reader_error_rules(F, ok, rep, P):
                   "FlacStreamReader::read returns an error for bytes that merely look like a sync code (%s): garbage between frames aborts the stream instead of being skipped" % bad)
 
 
+def _nested_result(dty):
+    """for `Result<T, E>` / `Option<T>`: a `Result<..>` occurring strictly inside T (not T itself), else None"""
+    m = re.match(r"^std::(result::Result|option::Option)<(.*)>$", dty or "")
+    if not m:
+        return None
+    depth, okt = 0, ""
+    for ch in m.group(2):
+        if ch in "<([":
+            depth += 1
+        elif ch in ">)]":
+            depth -= 1
+        if ch == "," and depth == 0:
+            break
+        okt += ch
+    okt = okt.strip()
+    if okt.startswith("std::result::Result<") or "std::result::Result<" not in okt:
+        return None
+    i = okt.index("std::result::Result<")
+    depth, out = 0, ""
+    for ch in okt[i:]:
+        out += ch
+        if ch == "<":
+            depth += 1
+        elif ch == ">":
+            depth -= 1
+            if depth == 0:
+                break
+    return out
+
+
 def run(ctx, rep):
     F = ctx.facts()
     cg = ctx.cg()
@@ -78,6 +111,14 @@ def run(ctx, rep):
             et = errdisc.err_type(t["dty"])
             if et and errdisc.is_io_bearing(et):
                 ncalls += 1
+        for bi, t in b.calls():
+            # a success value that *contains* I/O-bearing results (Ok(Vec<io::Result<()>>), Some((x, Err..)) ..): the `?` on the
+            # outer result says nothing about the inner ones, and nothing forces anyone to look at them
+            inner = _nested_result(t["dty"])
+            if inner is not None and errdisc.is_io_bearing(errdisc.err_type(inner) or ""):
+                fn = b.path if b.path.startswith("<") else strip_generics(b.path)
+                key = re.sub(r"\{closure#\d+\}", "{closure}", "%s|%s|results-hidden-in-success-value" % (fn, strip_generics(callee_name(t))))
+                seen.setdefault(key, []).append((loc_of(b, t), "the success value of this call holds further I/O results (%s): they can be dropped without being examined" % inner[:80]))
         for key, loc, what in errdisc.analyse_body(F, b):
             fn = b.path if b.path.startswith("<") else strip_generics(b.path)
             key = fn + "|" + key.split("|", 1)[1]
@@ -161,3 +202,5 @@ def run(ctx, rep):
     auditlib.panic_audit(ctx, rep, "C13", ["G_enc", "G_mw"], floor_sites=250)
     from rules import C10
     compose(ctx, rep, "C10", "C13.upd", r"^C10\.(validate|rewind|copy|open)$")
+    # guards behind audited panic sites of the encoder that a failed write can otherwise reach (finalize / Drop after an error)
+    compose(ctx, rep, "C15", "C13.enc", r"^C15\.guard$", key_only=r"Encoder::encode converts|fills its frame only with a non-empty block|exact_div")
